@@ -994,7 +994,12 @@ func glueSourceMap(r *Rng, st *Stats) []string {
 		}
 		verified, checked := 0, 0
 		var dl []string
-		for _, a := range segs {
+		var prevSeg *segAbs
+		for si := range segs {
+			a := segs[si]
+			if si > 0 {
+				prevSeg = &segs[si-1]
+			}
 			dl = append(dl, a.coq())
 			if !a.hasSrc {
 				continue
@@ -1018,6 +1023,25 @@ func glueSourceMap(r *Rng, st *Stats) []string {
 				st.Fail("glue-original-col-range", desc, a, srcTexts[a.s][a.ol])
 				continue
 			}
+			// Code the linker generates itself (the __export(...) block and the
+			// wrapper of a wrapped module, interop helpers) has no original token;
+			// esbuild maps it to the start of the file it belongs to. Such mappings
+			// are range-checked but exempt from token/name equality.
+			// The builder replicates the previous mapping at column 0 of a line that
+			// would otherwise not start with a mapping (a workaround for consumers
+			// that need one); no token need start there (e.g. the continuation of a
+			// string literal wrapped by --line-limit). Range-checked only.
+			if a.gc == 0 && prevSeg != nil && prevSeg.hasSrc && prevSeg.s == a.s && prevSeg.ol == a.ol && prevSeg.c == a.c {
+				st.Histogram["glue-cover-mapping"]++
+				continue
+			}
+			fileStart := a.ol == 0 && a.c == 0
+			if fileStart {
+				st.Histogram["glue-mapped-to-file-start"]++
+			}
+			if a.hasName && a.n >= 0 && a.n < len(sm.Names) && fileStart {
+				continue
+			}
 			if a.hasName {
 				if a.n < 0 || a.n >= len(sm.Names) {
 					st.Fail("glue-name-range", desc, a, len(sm.Names))
@@ -1029,7 +1053,19 @@ func glueSourceMap(r *Rng, st *Stats) []string {
 					continue
 				}
 			}
+			// --line-limit wraps long string literals with escaped newlines ("mk1\<LF>1"):
+			// undo the continuation before reading the marker
+			if strings.HasSuffix(strings.TrimRight(gtext, "\r\n"), "\\") {
+				joined := gtext
+				for k := a.gl + 1; k < len(genLines) && k <= a.gl+3; k++ {
+					joined += genLines[k]
+				}
+				gtext = strings.ReplaceAll(strings.ReplaceAll(joined, "\\\r\n", ""), "\\\n", "")
+			}
 			gm := markerRe.FindStringSubmatch(gtext)
+			if gm != nil && fileStart && !markerRe.MatchString(otext) {
+				continue
+			}
 			if gm != nil {
 				om := markerRe.FindStringSubmatch(otext)
 				if om == nil || om[1] != gm[1] {
@@ -1163,4 +1199,14 @@ func checkTablesAgainstScan(text string) string {
 		i += w
 	}
 	return check(len(bs))
+}
+
+func nameOccursInSources(name string, files map[string]string) bool {
+	re := regexp.MustCompile(`(^|[^A-Za-z0-9_$])` + regexp.QuoteMeta(name) + `($|[^A-Za-z0-9_$])`)
+	for _, text := range files {
+		if re.MatchString(text) {
+			return true
+		}
+	}
+	return false
 }
